@@ -356,6 +356,20 @@ def make_calls(tier):
                     vs = ['r%d%s' % (i, n) for i in range(len(r))]
                     body = '{ %s(%s) := %s; tag(); %s; eol() }' % (pre, ', '.join(vs), ex, '; sep(); '.join('%s(%s)' % (PRN[t], x) for t, x in zip(r, vs)))
                 calls.append((n, vals, p, body, exp))
+    # nested single-float arithmetic: inner(x, c1) then outer(., c2) with x opaque and c1, c2 literal.  The value of the inner
+    # operation must be rounded to single precision before the outer one uses it, on every evaluator.
+    f4 = ['SFloPlus', 'SFloMinus', 'SFloTimes', 'SFloDivide']
+    xs = D['FS'] if tier == 'thorough' else ['1.0', '-2.5', '0.1', '1.0e-10', '123456.789', '3.4028235e38', '1.4e-45']
+    cs_ = ['0.1', '1.0e30', '3.25', '1.0e-10', '123456.789'] if tier == 'thorough' else ['0.1', '1.0e30', '3.25']
+    for outer in f4:
+        for inner in f4:
+            nm = '%s.%s' % (outer, inner)
+            sel.append((nm, ['SFlo', 'SFlo', 'SFlo'], ['SFlo']))
+            for x, c1, c2 in itertools.product(xs, cs_, cs_):
+                for p in ('occ', 'ooo'):
+                    a1, a2 = (lit('SFlo', c1), lit('SFlo', c2)) if p == 'occ' else ('qf(%s, lv)' % lit('SFlo', c1), 'qf(%s, lv)' % lit('SFlo', c2))
+                    ex = '%s(%s(qf(%s, lv), %s), %s)' % (outer, inner, lit('SFlo', x), a1, a2)
+                    calls.append((nm, (x, c1, c2), p, '{ tag(); pf(%s); eol() }' % ex, None))
     return sel, sorted(decl), calls
 
 
@@ -484,9 +498,9 @@ def main(tier):
                                     'failing.txt': '\n'.join('%s%s pattern=%s got=%s want=%s' % (n, x[0], x[1], x[2], x[3]) for x in lst[:200]) + '\n'})
     ck.cov.update({
         'rule': 'every builtin of sal_lang.as with Bool/Char/SInt/BInt/SFlo/DFlo/Word operands x full product of per-type boundary sets x '
-                'argument patterns (c = literal constant, o = opaque run-time value, xx = same opaque variable twice), each evaluated by '
+                'argument patterns (c = literal constant, o = opaque run-time value, xx = same opaque variable twice), plus the 16 nestings outer(inner(x, c1), c2) of the four single-float arithmetic operations, each evaluated by '
                 'interp -Q0, interp -Q2, C -Q0, C -Q2; distinct = distinct (operation, result) pairs on which all routes agreed',
-        'builtins': len(sel), 'calls': len(calls), 'units': len(units),
+        'builtins': len([x for x in sel if '.' not in x[0]]), 'nested_single_float_shapes': len([x for x in sel if '.' in x[0]]), 'calls': len(calls), 'units': len(units),
         'constant_calls_confirmed_folded_at_Q2': folded_total[0],
         'builtins_left_unfolded_at_Q2': notfolded,
         'samples': [{'call': 'SIntIsOdd(ArrToSInt("-3" pretend Arr))', 'pattern': 'c', 'expect': 'T'},
